@@ -60,4 +60,61 @@ theorem scanDigits_numeral (r maxMag : Nat) (hr2 : 2 ≤ r) (hr : r ≤ 36) (neg
     congr 1
     omega
 
+theorem horner_zero_eq_ofDigits (r : Nat) (ds : List Nat) : horner r 0 ds = ofDigits r ds := rfl
+
+theorem parseInt_neg (t : IntTy) (r : Nat) (p : Bool) (c : Nat) (cs : List Nat) (hs : t.signed = true) :
+    parseInt t r p (45 :: c :: cs) = scanDigits r (t.maxMag true) true p (c :: cs) 0 1 := by
+  simp [parseInt, hs]
+
+theorem parseInt_nosign (t : IntTy) (r : Nat) (p : Bool) (c : Nat) (cs : List Nat) (h1 : c ≠ 43) (h2 : c ≠ 45) :
+    parseInt t r p (c :: cs) = scanDigits r (t.maxMag false) false p (c :: cs) 0 0 := by
+  unfold parseInt
+  split
+  next neg rest i heq =>
+    split at heq
+    · rename_i h; cases h; exact absurd rfl h1
+    · rename_i h; cases h; exact absurd rfl h2
+    · cases heq; rfl
+
+/-- **integer round trip on the specification level** (plain formats): for every type `t`, radix 2..36 and
+value `v` in range, the parser specification applied to the canonical text `['-'] ++ numeral r |v|`
+returns `v` having consumed everything. -/
+theorem roundtrip_int_spec (t : IntTy) (r : Nat) (hr2 : 2 ≤ r) (hr : r ≤ 36) (p : Bool) (v : Int)
+    (hneg : v < 0 → t.signed = true) (hfit : v.natAbs ≤ t.maxMag (decide (v < 0))) :
+    parseInt t r p ((if v < 0 then [45] else []) ++ numeral r v.natAbs) =
+      .ok v ((if v < 0 then 1 else 0) + (numeral r v.natAbs).length) := by
+  have hds := toDigits_digit_lt r v.natAbs hr2
+  have hne := toDigits_ne_nil r v.natAbs hr2
+  have hval := ofDigits_toDigits r v.natAbs hr2
+  obtain ⟨d, ds, hdds⟩ : ∃ d ds, toDigits r v.natAbs = d :: ds := by
+    cases h : toDigits r v.natAbs with
+    | nil => exact absurd h hne
+    | cons d ds => exact ⟨d, ds, rfl⟩
+  have hd : d < r := hds d (by rw [hdds]; simp)
+  have hd36 : d < 36 := by omega
+  have hc43 : digitChar d ≠ 43 := by unfold digitChar; split <;> omega
+  have hc45 : digitChar d ≠ 45 := by unfold digitChar; split <;> omega
+  have hnum : numeral r v.natAbs = digitChar d :: ds.map digitChar := by unfold numeral; rw [hdds]; rfl
+  have hlen : (numeral r v.natAbs).length = ds.length + 1 := by rw [hnum]; simp
+  have hall : ∀ x ∈ d :: ds, x < r := by rw [← hdds]; exact hds
+  have hh : horner r 0 (d :: ds) = v.natAbs := by rw [horner_zero_eq_ofDigits, ← hdds, hval]
+  by_cases hv : v < 0
+  · have hfit' : horner r 0 (d :: ds) ≤ t.maxMag true := by rw [hh]; simpa [hv] using hfit
+    have key := scanDigits_numeral r (t.maxMag true) hr2 hr true p (d :: ds) hall 0 1 hfit'
+    simp only [List.map_cons] at key
+    simp only [hv, if_true, List.singleton_append, hnum, parseInt_neg t r p _ _ (hneg hv), key, hh]
+    simp only [List.length_cons, List.length_map]
+    have : -((v.natAbs : Nat) : Int) = v := by omega
+    rw [this]
+  · have hfit' : horner r 0 (d :: ds) ≤ t.maxMag false := by rw [hh]; simpa [hv] using hfit
+    have key := scanDigits_numeral r (t.maxMag false) hr2 hr false p (d :: ds) hall 0 0 hfit'
+    simp only [List.map_cons] at key
+    simp only [hv, if_false, List.nil_append, hnum, parseInt_nosign t r p _ _ hc43 hc45, key, hh]
+    simp only [Bool.false_eq_true, if_false, List.length_cons, List.length_map]
+    have : ((v.natAbs : Nat) : Int) = v := by omega
+    rw [this]
+
+/-- non-vacuity: i8, radix 10, v = -128 -/
+example : parseInt ⟨8, true⟩ 10 false ([45] ++ numeral 10 128) = .ok (-128) 4 := by decide
+
 end LexVerif.Props.C08
